@@ -26,8 +26,10 @@ OWNED = {
     ("utype.parser.func:FunctionParser.parse_params", "kwargs"): "the dict built from the wrapper's own **kwargs",
     ("utype.parser.func:FunctionParser.parse_params", "args"): "the tuple built from the wrapper's own *args",
     ("utype.parser.func:FunctionParser.get_params", "kwargs"): "the wrapper's own **kwargs dict",
+    ("utype.parser.func:FunctionParser.sync_call", "kwargs"): "the wrapper's own **kwargs dict",
+    ("utype.parser.func:FunctionParser.sync_call", "args"): "the wrapper's own *args tuple",
+    ("utype.parser.func:FunctionParser.get_params", "args"): "the wrapper's own *args tuple",
     ("utype.parser.cls:ClassParser.set_attributes", "values"): "the result mapping built by the parser for this call",
-    ("utype.parser.cls:init_dataclass", "kwargs"): "the function's own **kwargs dict",
 }
 # state writes that outlive a call and are semantically transparent: (function ref, attribute) -> reason
 TRANSPARENT = {
@@ -209,8 +211,80 @@ def r19d(run):
     run.floor("R19d", "attribute stores on shared objects", total, 60)
 
 
+def r19e(run):
+    """objects the mutating helpers treat as their own (table OWNED) really are created for the call: at every call
+    site the argument is a fresh object or the caller's own *args / **kwargs - never (an alias of) a caller's parameter"""
+    total = 0
+    for (ref, param), reason in sorted(OWNED.items()):
+        mod, q = ref.split(":")
+        callee = run.repo.maybe_func(mod, q)
+        if callee is None:
+            raise AnalysisError(f"R19e: owner table entry {ref} not found")
+        params = [p for p in callee.params if p not in ("self", "cls")]
+        if param not in params:
+            raise AnalysisError(f"R19e: {ref} has no parameter {param}")
+        idx = params.index(param)
+        for f in run.repo.all_functions():
+            if not (f.module.name.startswith("utype.parser") or f.module.name == "utype.schema"):
+                continue
+            fa = None
+            for c in walk_shallow(f.node):
+                if not (isinstance(c, ast.Call) and call_attr(c) == callee.name and isinstance(c.func, ast.Attribute)):
+                    continue
+                arg = kwarg(c, param)
+                if arg is None and idx < len(c.args) and not isinstance(c.args[idx], ast.Starred):
+                    arg = c.args[idx]
+                if arg is None:
+                    continue
+                fa = fa or analysis(f)
+                node = None
+                for n in fa.cfg.nodes:
+                    if n.ast is not None and any(x is c for x in walk_shallow(n.ast)):
+                        node = n
+                        break
+                if node is None:
+                    continue
+                total += 1
+                a = f.node.args
+                own = {x.arg for x in (a.vararg, a.kwarg) if x is not None}
+                foreign = []
+
+                seen_defs = set()
+
+                def scan(e, at, depth=0):
+                    if depth > 6:
+                        return
+                    if isinstance(e, ast.IfExp):
+                        scan(e.body, at, depth)
+                        scan(e.orelse, at, depth)
+                    elif isinstance(e, ast.BoolOp):
+                        for x in e.values:
+                            scan(x, at, depth)
+                    elif isinstance(e, ast.Name) and e.id in fa.rd.locals:
+                        for d in fa.rd.defs_of(at, e.id):
+                            if (d.id, e.id) in seen_defs:
+                                continue
+                            seen_defs.add((d.id, e.id))
+                            if d is fa.cfg.entry:
+                                if e.id in f.params and e.id not in own and (f.ref, e.id) not in OWNED:
+                                    foreign.append(e.id)
+                            elif d.kind == "stmt" and isinstance(d.ast, ast.Assign):
+                                scan(d.ast.value, d, depth + 1)
+                    # calls, literals, comprehensions create new objects
+
+                scan(arg, node)
+                run.check("R19e", f, f"`{unparse(c)[:50]}`: the `{param}` handed to {callee.name} is created for this call",
+                          not foreign, construct=f"caller's object {sorted(set(foreign))} passed as owned `{param}` of {callee.name}",
+                          message=f"{f.qualname}: `{unparse(c)[:70]}` can pass (an alias of) the parameter "
+                                  f"{sorted(set(foreign))} as `{param}`; {callee.name} mutates that object ({reason})",
+                          necessity="Cls(payload) with no_parse: set_attributes pops the no_output keys from the caller's "
+                                    "own dict - the input is modified and a second Cls(payload) differs from the first",
+                          node=c)
+    run.floor("R19e", "call sites of helpers that own an argument", total, 3)
+
+
 def check(run):
-    run.rules_run += ["R19a", "R19b", "R19c", "R19d"]
+    run.rules_run += ["R19a", "R19b", "R19c", "R19d", "R19e"]
     run.explain("Static purity check: defaults pass through a deep copy_value on every path; no mutating operation "
                 "(including a bound mutator reference) reaches an object derived from an input-carrying parameter of the "
                 "parse core, converters or validators; every write to state that outlives a call - enumerated from the "
@@ -220,3 +294,4 @@ def check(run):
     r19b(run)
     r19c(run)
     r19d(run)
+    r19e(run)
